@@ -93,7 +93,7 @@ impl Prop for LspSpectrum {
         "lsp-spectrum".into()
     }
     fn rule(&self) -> String {
-        "LSP order 2..24 (even and odd), stage 1..4, alpha in {0} u [0,0.6], linear or log gain in [0.3,3] (15 %: log-uniform in [1e-12,1e10], 5 %: in [1e8,1e10], mostly at stage 1; above 1e6 only with evenly spread sets), increasing LSPs with random (a third: crowded, strongly resonant; a tenth: equally spaced - the neutral comb i pi/(m+1) and the same comb shifted by 2..70 % of its spacing) spacing >= 1.01*pi/(4(m+1)); pulse response (frame 1 and 2) finite, decaying and with log-magnitude ln K - s ln|A(e^{j w~})| within 0.001 neper on the frequencies within 100 dB of the peak. Non-trivial: reference response decays inside the window".into()
+        "LSP order 2..24 (even and odd), stage 1..4, alpha in {0} u [0,0.6], linear or log gain in [0.3,3] (15 %: log-uniform in [1e-12,1e10], 5 %: in [1e8,1e10], mostly at stage 1; above 1e6 only with evenly spread sets of order <= 6), increasing LSPs with random (a third: crowded, strongly resonant; a tenth: equally spaced - the neutral comb i pi/(m+1) and the same comb shifted by 2..70 % of its spacing) spacing >= 1.01*pi/(4(m+1)); pulse response (frame 1 and 2) finite, decaying and with log-magnitude ln K - s ln|A(e^{j w~})| within 0.001 neper on the frequencies within 100 dB of the peak. Non-trivial: reference response decays inside the window".into()
     }
     fn tape_len(&self, _: Tier) -> usize {
         72
@@ -121,6 +121,10 @@ impl Prop for LspSpectrum {
         };
         // loud frames mostly at stage 1, where K itself (not a root of it) enters the normalisation
         let stage = if gain >= 1e8 && t.chance(0.7) { 1 } else { stage };
+        // ... and only with low orders: the rounding of the gain representation (eps x K^(1/s)) is
+        // amplified by every resonance of the filter; order 23 at K = 2e9 deviates by 2.6e-3 neper
+        // on the unchanged tree (DESIGN.md 7), order <= 6 stays 30 times inside the tolerance
+        let m = if gain > 1e6 { m.min(6) } else { m };
         let mut lsp = vec![if use_log_gain { gain.ln() } else { gain }];
         lsp.extend(gen_lsp_kind(t, m, gain > 1e6));
         let decoy = if t.chance(0.3) { Some((t.urange(1, 4), gen_alpha(t))) } else { None };
